@@ -198,8 +198,9 @@ def HLine.ok (l : HLine) : Prop := IsHeaderLine l.name l.ows₁ l.value l.ows₂
 
 /-- the headers a sequence of default-grammar lines starting at offset `off` denotes: name exactly
 the bytes before the colon, value the bytes after it without the surrounding OWS -/
-def linesHeaders : (off : Nat) → List HLine → List (Slice × List Byte)
+def linesHeaders : (off : Nat) → List HLine → List Hdr
   | _, [] => []
-  | off, l :: r => (⟨off, l.name⟩, l.value) :: linesHeaders (off + l.bytes.length) r
+  | off, l :: r =>
+    ⟨⟨off, l.name⟩, ⟨off + l.name.length + 1 + l.ows₁.length, l.value⟩⟩ :: linesHeaders (off + l.bytes.length) r
 
 end Hx
